@@ -9,7 +9,7 @@ git -C $S/repo checkout -q --detach $(git -C /repo rev-parse HEAD); git -C $S/re
 mkdir -p $S/verif
 # committed state only (so that work in progress in /verif cannot break the matrix)
 find $S/verif -mindepth 1 -maxdepth 1 ! -name target -exec rm -rf {} +
-git -C /verif archive HEAD | tar -x -C $S/verif
+git -C /verif archive ${REV:-HEAD} | tar -x -C $S/verif
 sed -i "s|path = \"/repo\"|path = \"$S/repo\"|" $S/verif/harness/Cargo.toml
 sed -i "s|target-dir = \"/verif/target\"|target-dir = \"$S/verif/target\"|" $S/verif/harness/.cargo/config.toml
 cd $S/verif && VERIF_ROOT=$S/verif ./vcheck setup >/dev/null 2>&1
